@@ -114,4 +114,18 @@ CLAIMS['C05'] = {
     'note': _NOTE,
 }
 
+CLAIMS['C01'] = {
+    'text': 'Seven structural lemmas whose conjunction is the monotonicity / no-early-no-late '
+            'argument: clock writers and the popped key; min-pop of both wait-queue classes; '
+            'every dated schedule call (followed through pass-through parameters, closures '
+            'and parameterless helpers to its callers) dominated by delay > 0 / date > now; '
+            'drain-before-next-pop loop shape; keyword plumbing of delays and dates; truth '
+            'terms plus the await and subscribe action tables of After/Before/Moment/'
+            'Eternity/Instant evaluated exhaustively under the three orderings of clock and '
+            'date (values are only compared, so the orderings cover everything); optional '
+            'dates tested with `is None`. Numeric behaviour of user-chosen dates (rounding, '
+            'inf) is not decided.',
+    'note': _NOTE,
+}
+
 NOT_APPLICABLE = {}
